@@ -95,6 +95,16 @@ func (w *writer) nodes(l []Node, depth int) {
 func (w *writer) node(n Node, depth int) {
 	switch n.K {
 	case "text":
+		if n.Exact {
+			for _, p := range n.T {
+				if p.X != "" {
+					w.b.WriteString("{{ " + p.X + " }}")
+				} else {
+					w.b.WriteString(p.L)
+				}
+			}
+			return
+		}
 		w.nl(depth)
 		for i, p := range n.T {
 			if i > 0 {
@@ -145,7 +155,11 @@ func (w *writer) node(n Node, depth int) {
 			}
 		}
 		for _, kv := range n.Bind {
-			fmt.Fprintf(w.b, ` :%s="%s"`, kv.K, kv.V)
+			if kv.Lit {
+				fmt.Fprintf(w.b, ` :%s="'%s'"`, kv.K, kv.V)
+			} else {
+				fmt.Fprintf(w.b, ` :%s="%s"`, kv.K, kv.V)
+			}
 		}
 		w.b.WriteString(">")
 		w.nodes(n.Kids, depth+1)
